@@ -360,11 +360,16 @@ func C15ErrText() {
 		}
 		return err.Error()
 	}
-	e1 := run(mk())
-	e2 := run(mk())
-	zz.Observe("err", e1)
-	zz.Assert(e1 != "ok" && e2 != "ok", "the record fails (both casts fail)")
-	zz.Assert(e1 == e2, "the same record fails with the same text on every load of the schema")
+	// natively Go's map order is not under control: repeat, so that differing orders occur
+	for it, n := 0, zz.Stress(200); it < n; it++ {
+		e1 := run(mk())
+		e2 := run(mk())
+		if it == 0 {
+			zz.Observe("err", e1)
+		}
+		zz.Assert(e1 != "ok" && e2 != "ok", "the record fails (both casts fail)")
+		zz.Assert(e1 == e2, "the same record fails with the same text on every load of the schema")
+	}
 	zz.Cover("compared")
 }
 
